@@ -493,3 +493,6 @@ def run(repo: Repo, rep: Report, tier: str) -> None:
     call_time_rule(repo, rep, "C02.R18")
     one_list_rule(repo, rep, "C02.R19")
     unit_switch_rule(repo, rep, "C02.R20")
+    from .c05 import text_array_fold_rule
+
+    text_array_fold_rule(repo, rep, "C02.R21")
